@@ -19,6 +19,23 @@ def const_value(F, suffix):
     return None
 
 
+class FixedTextUnreadable(Exception):
+    """the header / helper writers do not write one constant text: a statement about the analysed code, not about the harness"""
+
+
+def fixed_texts(F):
+    """(header text, helper text): what the FileHeader and Helpers writers put around the generated items, read off the output
+    grammar (constants evaluated by the compiler, literals), not looked up by the name of a constant"""
+    from rules import anchors as A
+    from rules import templates as T
+    X = T.extractor(F)
+    header, why_h = A.header_text(F, X)
+    helpers, why_p = A.helpers_text(F, X)
+    if header is None or helpers is None:
+        raise FixedTextUnreadable(f"header: {why_h}; helpers: {why_p}")
+    return header, helpers
+
+
 class Segment:
     def __init__(self, name, text):
         self.name = name
@@ -123,10 +140,7 @@ def _collect(F, segments, work, cache, r):
 
 
 def prelude_segments(F, samples=None):
-    header = const_value(F, "write_xml::HEADER")
-    helpers = const_value(F, "write_xml::HELPERS")
-    if header is None or helpers is None:
-        raise factsmod.InfraError("HEADER / HELPERS constants not found in the facts")
+    header, helpers = fixed_texts(F)
     segs = [Segment("header", header)]
     for name, text in (samples or []):
         segs.append(Segment(name, text))
